@@ -100,8 +100,11 @@ def run(ctx) -> RuleResult:
                             isinstance(d, ast.Name) and d.id == "staticmethod" for d in target.decorator_list
                         )
                         skip_first = not is_static
-                        # Class.method(obj, ...) passes self explicitly
-                        if skip_first and isinstance(node.func, ast.Attribute):
+                        is_class = any(
+                            isinstance(d, ast.Name) and d.id == "classmethod" for d in target.decorator_list
+                        )
+                        # Class.method(obj, ...) passes self explicitly (a classmethod always receives cls implicitly)
+                        if skip_first and not is_class and isinstance(node.func, ast.Attribute):
                             chain = ctx.res.chain(node.func)
                             if chain and len(chain) >= 2 and chain[-2] == parent.name:
                                 skip_first = False
